@@ -167,6 +167,16 @@ const WITNESS: &[&str] = &[
     "fn foo(a, b=2.0){ a + b }\nfn dsp(){ foo({a = self + 1.0, ..}) }",
     "fn foo(a, b=2.0){ a + b }\nfn dsp(){ foo({a =+ 1.0, ..}) }",
     "fn foo(a, b=2.0){ a + b }\nfn dsp(){ foo({a = -1.0, b = foo!(1.0), ..}) }",
+    // extreme integer literals in structural positions (projection index, array index, delay size)
+    "fn dsp(){ let t = (1.0, 2.0)\n t.65536 }",
+    "fn dsp(){ let t = (1.0, 2.0)\n t.65537 }",
+    "fn dsp(){ let t = (1.0, 2.0)\n t.4294967296 }",
+    "fn dsp(){ let t = (1.0, 2.0)\n t.4294967297 }",
+    "fn dsp(){ let t = (1.0, 2.0)\n t.18446744073709551616 }",
+    "fn dsp(){ let t = (1.0, 2.0)\n t.99999999999999999999999999 }",
+    "fn dsp(){ let a = [1.0, 2.0]\n a[18446744073709551616] }",
+    "fn dsp(){ delay(18446744073709551616, 1.0, 1.0) }",
+    "fn dsp(){ delay(1e30, 1.0, 1.0) }",
     "x ! x ::",
     "fn dsp(){ y :: }",
     "fn dsp(){ a::b!(1.0) }",
